@@ -7,6 +7,18 @@ import re
 from vf.extract import Source, Unit
 from vf.lex import Rule, ExtractionBreak, find_def, mask
 
+EXPLANATION = ('Contracts on the extracted text of StringReader / StringWriter / BufferWriter / BitReader / BitWriter; E01 clauses (values, layout, '
+               'cursor advance, frames) are active for C01, E02 clauses (throws iff out of range, slices inside the buffer, cursor never beyond the end) for C02; '
+               'small callees are inlined, libc/std::string calls are bound to stub contracts whose preconditions are the memory-safety obligations.')
+TRUSTED = ['stubs/vstr.h (std::string model), stubs/libc.h (memcpy/memcmp contracts), contracts/RW_*.h spec macros, contracts/C03_*.h (endian wrapper contracts, proved by C03)']
+ASSUMPTIONS = ['buffer / string lengths are below 2^47 bytes (cbmc object size limit with the default object bits)',
+               'std::string append/assign succeed (capacity model); resize beyond capacity throws length_error',
+               'the result string of string-returning readers is empty on entry and can hold the whole source (allocation succeeds)',
+               'bit-exact float obligations are answered by SAT back ends only']
+DROPS = ('owned_data shared_ptr members (lifetime only); virtual destructors; std::string -> vstr out-parameters; references -> pointers; default arguments made explicit; '
+         'implicit conversion operator / converting constructor of the endian wrappers made explicit (CONVT/CTORT) in the generated one-liners; '
+         'for (;;) -> while (1) where a loop contract is attached; exceptions -> verif_exc flag with propagation after may-throw calls')
+
 HH = 'src/Strings.hh'
 CC = 'src/Strings.cc'
 SR = r'class StringReader'
@@ -134,6 +146,203 @@ def reader_core(ctx, src):
     return u
 
 
+
+SW = r'class StringWriter'
+BW = r'class BufferWriter'
+
+
+def tmpl_units(ctx, src):
+    """get<T>/pget<T> (StringReader), put<T>/pput<T> (StringWriter, BufferWriter): macro-parameterised by T."""
+    u = Unit(ctx, 'rw_tmpl')
+    u.function(src, HH, r'const T& pget\(size_t offset, size_t size = sizeof\(T\)\) const', scope=SR,
+               new_header='static inline const T* PGET(T)(const StringReader* self, size_t offset, size_t size)',
+               rules=[Rule('return *((const T*)(self->pgetv(offset, size)));',
+                           'return ((const T*)(%s(self, offset, size)));' % M('pgetv'), count=1)])
+    u.function(src, HH, r'const T& get\(bool advance = true, size_t size = sizeof\(T\)\)', scope=SR,
+               new_header='static inline const T* GET(T)(StringReader* self, bool advance, size_t size)',
+               rules=[Rule('const T& ret = self->pget<T>(self->offset, size);',
+                           'const T* ret = PGET(T)(self, self->offset, size); if (verif_exc) return 0;', count=1)])
+    # StringWriter
+    u.function(src, HH, r'void put\(const T& v\)', scope=SW,
+               new_header='static inline void SWPUT(T)(StringWriter* self, const T* v)',
+               rules=[Rule('self->data.append(((const char*)(&v)), sizeof(v));', 'vstr_append(&self->data, ((const char*)(v)), sizeof(*v));', count=1)])
+    u.function(src, HH, r'void pput\(size_t offset, const T& v\)', scope=SW,
+               new_header='static inline void SWPPUT(T)(StringWriter* self, size_t offset, const T* v)', ret_zero='',
+               rules=[Rule('self->data.size()', 'vstr_size(&self->data)', count=1),
+                      Rule("self->data.resize(offset + sizeof(T), '\\0');", "vstr_resize_x(&self->data, offset + sizeof(T), '\\0'); if (verif_exc) return;", count=1),
+                      Rule('memcpy(self->data.data() + offset, &v, sizeof(v));', 'verif_memcpy(vstr_data(&self->data) + offset, v, sizeof(*v));', count=1)])
+    # BufferWriter
+    u.function(src, HH, r'void put\(const T& v\)', scope=BW,
+               new_header='static inline void BWPUT(T)(BufferWriter* self, const T* v)',
+               rules=[Rule('self->write(&v, sizeof(v));', 'BufferWriter_write(self, v, sizeof(*v));', count=1)])
+    u.function(src, HH, r'void pput\(size_t offset, const T& v\)', scope=BW,
+               new_header='static inline void BWPPUT(T)(BufferWriter* self, size_t offset, const T* v)',
+               rules=[Rule('self->pwrite(offset, &v, sizeof(v));', 'BufferWriter_pwrite(self, offset, v, sizeof(*v));', count=1)])
+    u.write(suffix='.inc')
+    return u
+
+
+def writer_core(ctx, src):
+    u = Unit(ctx, 'writer_core')
+    u.raw(TYPES + '#include "stubs/vstr.h"\n#include "contracts/RW_wtypes.h"\n')
+    u.function(src, HH, r'inline void pwrite\(size_t offset, const void\* data, size_t size\)', scope=BW,
+               new_header='void BufferWriter_pwrite(BufferWriter* self, size_t offset, const void* data, size_t size)',
+               rules=[Rule('memcpy(', 'verif_memcpy(', count=1)], ret_zero='')
+    u.function(src, HH, r'inline void write\(const void\* data, size_t size\)', scope=BW,
+               new_header='void BufferWriter_write(BufferWriter* self, const void* data, size_t size)',
+               rules=[Rule('self->pwrite(', 'BufferWriter_pwrite(self, ', count=1)], may_throw=['BufferWriter_pwrite'], ret_zero='')
+    u.function(src, HH, r'inline void extend_to\(size_t size, char v = \'_+\'\)', scope=SW,
+               new_header='void StringWriter_extend_to(StringWriter* self, size_t size, char v)',
+               rules=[Rule('self->data.resize(size, v);', 'vstr_resize_x(&self->data, size, v);', count=1)])
+    u.function(src, HH, r'inline void extend_by\(size_t size, char v = \'_+\'\)', scope=SW,
+               new_header='void StringWriter_extend_by(StringWriter* self, size_t size, char v)',
+               rules=[Rule('self->data.resize(self->data.size() + size, v);', 'vstr_resize_x(&self->data, vstr_size(&self->data) + size, v);', count=1)])
+    u.function(src, CC, r'size_t StringWriter::size\(\) const', new_header='size_t StringWriter_size(const StringWriter* self)',
+               rules=[Rule('self->data.size()', 'vstr_size(&self->data)', count=1)])
+    u.function(src, CC, r'void StringWriter::write\(const void\* data, size_t size\)',
+               new_header='void StringWriter_write(StringWriter* self, const void* data, size_t size)',
+               rules=[Rule('self->data.append(', 'vstr_append(&self->data, ', count=1)])
+    # bit writer / reader
+    u.function(src, CC, r'size_t BitWriter::size\(\) const', new_header='size_t BitWriter_size(const BitWriter* self)',
+               rules=[Rule('self->data.size()', 'vstr_size(&self->data)', count=1)])
+    u.function(src, CC, r'void BitWriter::write\(bool v\)', new_header='void BitWriter_write(BitWriter* self, bool v)',
+               rules=[Rule('self->data[self->data.size() - 1]', 'self->data.data[vstr_size(&self->data) - 1]', count=1),
+                      Rule('self->data.push_back(', 'vstr_push_back(&self->data, ', count=1)])
+    u.function(src, CC, r'void BitWriter::truncate\(size_t size\)', new_header='void BitWriter_truncate(BitWriter* self, size_t size)',
+               rules=[Rule('self->data.size()', 'vstr_size(&self->data)', count=2),
+                      Rule('self->data.resize((size + 7) / 8);', "vstr_resize_x(&self->data, (size + 7) / 8, '\\0');", count=1),
+                      Rule('self->data[vstr_size(&self->data) - 1]', 'self->data.data[vstr_size(&self->data) - 1]', count=1)], ret_zero='')
+    u.function(src, CC, r'uint64_t BitReader::pread\(size_t start_offset, uint8_t size\)',
+               new_header='uint64_t BitReader_pread(BitReader* self, size_t start_offset, uint8_t size)', ret_zero='0',
+               nloops=1, loops={1: BITREADER_LOOP})
+    u.function(src, CC, r'uint64_t BitReader::read\(uint8_t size, bool advance\)',
+               new_header='uint64_t BitReader_read(BitReader* self, uint8_t size, bool advance)',
+               rules=[Rule('self->pread(', 'BitReader_pread(self, ', count=1)], may_throw=['BitReader_pread'], ret_zero='0')
+    u.function(src, CC, r'void BitReader::skip\(size_t bits\)', new_header='void BitReader_skip(BitReader* self, size_t bits)')
+    u.function(src, CC, r'void BitReader::go\(size_t offset\)', new_header='void BitReader_go(BitReader* self, size_t offset)')
+    return u
+
+
+BITREADER_LOOP = """
+__CPROVER_assigns(ret_bits, ret)
+__CPROVER_loop_invariant(ret_bits <= size)
+__CPROVER_loop_invariant(ret_bits < 64 ==> (ret >> ret_bits) == 0)
+__CPROVER_loop_invariant(g_bit < ret_bits ==> ((ret >> (ret_bits - 1 - g_bit)) & 1) == BITAT(self->data, start_offset + g_bit))
+__CPROVER_decreases(size - ret_bits)
+"""
+
+
+def reader_str(ctx, src):
+    """string-returning readers and the cstr/line loops (std::string -> vstr out-parameter)."""
+    u = Unit(ctx, 'reader_str')
+    u.raw('#include "stubs/vstr.h"\n')
+    RS = [Rule(r'return string\(\);', '{ vstr_clear(ret); return; }', regex=True),
+          Rule(r'return string\(\s*([^;]*?)\);', r'{ vstr_assign(ret, \1); return; }', regex=True, count='+')]
+    u.function(src, CC, r'string StringReader::pread\(size_t offset, size_t size\) const',
+               new_header='void %s(const StringReader* self, vstr* ret, size_t offset, size_t size)' % M('pread_str'), rules=RS)
+    u.function(src, CC, r'string StringReader::preadx\(size_t offset, size_t size\) const',
+               new_header='void %s(const StringReader* self, vstr* ret, size_t offset, size_t size)' % M('preadx_str'), rules=RS, ret_zero='')
+    u.function(src, CC, r'string StringReader::read\(size_t size, bool advance\)',
+               new_header='void %s(StringReader* self, vstr* ret, size_t size, bool advance)' % M('read_str'),
+               rules=[Rule('string ret = self->pread(self->offset, size);', '%s(self, ret, self->offset, size);' % M('pread_str'), count=1),
+                      Rule('ret.size()', 'vstr_size(ret)', count=2), Rule('return ret;', 'return;', count=1)])
+    u.function(src, CC, r'string StringReader::readx\(size_t size, bool advance\)',
+               new_header='void %s(StringReader* self, vstr* ret, size_t size, bool advance)' % M('readx_str'),
+               rules=[Rule('string ret = self->preadx(self->offset, size);', '%s(self, ret, self->offset, size); if (verif_exc) return;' % M('preadx_str'), count=1),
+                      Rule('ret.size()', 'vstr_size(ret)', count=1), Rule('return ret;', 'return;', count=1)])
+    P8 = M('pget_s8')
+    u.function(src, CC, r'string StringReader::pget_cstr\(size_t offset\) const',
+               new_header='void %s(const StringReader* self, vstr* ret, size_t offset)' % M('pget_cstr'),
+               rules=[Rule('string ret;', '', count=1),
+                      Rule('uint8_t ch = self->pget_s8(offset + ret.size());', 'uint8_t ch = %s(self, offset + vstr_size(ret)); if (verif_exc) return;' % P8, count=1),
+                      Rule('ret += ch;', 'vstr_push_back(ret, ch);', count=1), Rule('return ret;', 'return;', count=1)],
+               nloops=1, loops={1: CSTR_LOOP})
+    u.function(src, CC, r'string StringReader::get_cstr\(bool advance\)',
+               new_header='void %s(StringReader* self, vstr* ret, bool advance)' % M('get_cstr'),
+               rules=[Rule('string ret = self->pget_cstr(self->offset);', '%s(self, ret, self->offset); if (verif_exc) return;' % M('pget_cstr'), count=1),
+                      Rule('ret.size()', 'vstr_size(ret)', count=1), Rule('return ret;', 'return;', count=1)])
+    u.function(src, CC, r'string StringReader::get_line\(bool advance\)',
+               new_header='void %s(StringReader* self, vstr* ret, bool advance)' % M('get_line'), ret_zero='',
+               rules=[Rule('self->eof()', M('eof') + '(self)', count=1), Rule('string ret;', '', count=1),
+                      Rule('ret.size()', 'vstr_size(ret)', count=2),
+                      Rule('uint8_t ch = self->pget_s8(ch_offset);', 'uint8_t ch = %s(self, ch_offset); if (verif_exc) return;' % P8, count=1),
+                      Rule('ret += ch;', 'vstr_push_back(ret, ch);', count=1),
+                      Rule('if (ends_with(ret, "\\r")) {', "if (vstr_ends_with_c(ret, '\\r')) {", count=1),
+                      Rule('ret.pop_back();', 'vstr_pop_back(ret);', count=1), Rule('return ret;', 'return;', count=1)],
+               nloops=1, loops={1: LINE_LOOP})
+    return u
+
+
+CSTR_LOOP = """
+__CPROVER_assigns(verif_exc, ret->size, __CPROVER_object_whole(ret->data))
+__CPROVER_loop_invariant(verif_exc == 0)
+__CPROVER_loop_invariant(ret->size <= ret->cap && (offset <= self->length ==> ret->size <= self->length - offset))
+__CPROVER_loop_invariant(g_vk < ret->size ==> (ret->data[g_vk] == (char)self->data[offset + g_vk] && self->data[offset + g_vk] != 0))
+__CPROVER_decreases(self->length - offset - ret->size)
+"""
+LINE_LOOP = """
+__CPROVER_assigns(verif_exc, ret->size, __CPROVER_object_whole(ret->data))
+__CPROVER_loop_invariant(verif_exc == 0)
+__CPROVER_loop_invariant(ret->size <= self->length - self->offset)
+__CPROVER_loop_invariant(g_vk < ret->size ==> (ret->data[g_vk] == (char)self->data[self->offset + g_vk] && self->data[self->offset + g_vk] != '\\n'))
+__CPROVER_decreases(self->length - self->offset - ret->size)
+"""
+
+
+def oneliners(ctx, src):
+    """The get_*/pget_* (reader) and put_*/pput_* (both writers) one-liners, grouped by the type they instantiate the
+    templates with. Returns {W: {'file':..., 'fns': {...}}}.  Names, wrapper types, argument lists all come from the class text;
+    made explicit: the default argument size = sizeof(T), the implicit conversion operator (CONVT) / converting ctor (CTORT)."""
+    text = src.text(HH)
+    out = {}
+
+    def add(W, code, key, cname, ret):
+        d = out.setdefault(W, {'code': [], 'fns': {}})
+        d['code'].append(code)
+        d['fns'][key] = (cname, ret)
+    _, rbody, _, _ = find_def(text, SR, 'class')
+    rx = re.compile(r'inline (\w+) ((get|pget)_\w+)\((bool advance = true|size_t offset)\) (?:const )?\{ return this->(get|pget)<(\w+)>\((advance|offset)\); \}')
+    n = 0
+    for mo in rx.finditer(rbody):
+        ret, name, kind, arg, kind2, W, a2 = mo.groups()
+        if kind != kind2 or (kind == 'get') != (a2 == 'advance'):
+            raise ExtractionBreak('one-liner %s has an unexpected shape' % name)
+        n += 1
+        if kind == 'get':
+            code = ('%s StringReader_%s(StringReader* self, bool advance)\n{ const %s* verif_t = GET(%s)(self, advance, sizeof(%s)); '
+                    'if (verif_exc) return 0; return CONVT(verif_t); }' % (ret, name, W, W, W))
+        else:
+            code = ('%s StringReader_%s(const StringReader* self, size_t offset)\n{ const %s* verif_t = PGET(%s)(self, offset, sizeof(%s)); '
+                    'if (verif_exc) return 0; return CONVT(verif_t); }' % (ret, name, W, W, W))
+        add(W, code, 'rd_' + kind, 'StringReader_' + name, ret)
+    if n != 36:
+        raise ExtractionBreak('expected 36 typed reader one-liners, found %d' % n)
+    wx = re.compile(r'inline void ((put|pput)_\w+)\((size_t offset, )?(\w+) v\) \{ this->(put|pput)<(\w+)>\((offset, )?v\); \}')
+    for cls, scope, pre in (('StringWriter', SW, 'SW'), ('BufferWriter', BW, 'BW')):
+        _, wbody, _, _ = find_def(text, scope, 'class')
+        n = 0
+        for mo in wx.finditer(wbody):
+            name, kind, off, vt, kind2, W, off2 = mo.groups()
+            if kind != kind2 or bool(off) != bool(off2) or bool(off) != (kind == 'pput'):
+                raise ExtractionBreak('one-liner %s::%s has an unexpected shape' % (cls, name))
+            n += 1
+            if kind == 'put':
+                code = ('void %s_%s(%s* self, %s v)\n{ %s verif_w; CTORT(&verif_w, v); %sPUT(%s)(self, &verif_w); }' % (cls, name, cls, vt, W, pre, W))
+            else:
+                code = ('void %s_%s(%s* self, size_t offset, %s v)\n{ %s verif_w; CTORT(&verif_w, v); %sPPUT(%s)(self, offset, &verif_w); }'
+                        % (cls, name, cls, vt, W, pre, W))
+            add(W, code, pre.lower() + '_' + kind, '%s_%s' % (cls, name), vt)
+        if n != 68:
+            raise ExtractionBreak('expected 68 typed %s one-liners, found %d' % (cls, n))
+    import os
+    os.makedirs(ctx.build_dir, exist_ok=True)
+    for W, d in out.items():
+        pth = os.path.join(ctx.build_dir, 'x_one__%s.inc' % W)
+        with open(pth, 'w') as f:
+            f.write('/* GENERATED from the one-liner accessors of %s on every run */\n' % HH + '\n'.join(d['code']) + '\n')
+        d['file'] = pth
+    return out
+
 # ---------------------------------------------------------------------------------------------------------------------
 from vf.pipeline import Group, Replay, ALL_LIB
 
@@ -173,6 +382,96 @@ def plan(ctx, pid):
     G('preadx_buf', replace=['verif_memcpy'])
     G('read_buf', replace=['verif_memcpy'])
     G('readx_buf', replace=['verif_memcpy'])
+    tm = tmpl_units(ctx, src)
+    wc = writer_core(ctx, src)
+    wc.write()
+    rs = reader_str(ctx, src)
+    rs.write()
+    ones = oneliners(ctx, src)
+    ctx.functions_under_contract += tm.functions + wc.functions + rs.functions
+    HS = 'harness/RW/str.c'
+    VS = ['vstr_assign', 'vstr_append', 'vstr_resize_x']
+
+    def S(name, entry, enforce, function, replace=None, **kw):
+        g = Group(name=name, harness=HS, entry=entry, function=function, enforce=enforce, replace=replace or [], defines=list(D),
+                  replay=Replay(driver='RW/reader.cc', mode=entry[2:], sources=ALL_LIB, small_define='VERIF_SMALL'), **kw)
+        groups.append(g)
+        return g
+    for fn in ['pread_str', 'preadx_str', 'read_str', 'readx_str']:
+        S('StringReader.' + fn, 'h_' + fn, 'StringReader_' + fn, 'StringReader::' + fn.replace('_str', '') + ' (std::string form)', replace=['vstr_assign'])
+    S('StringReader.pget_cstr', 'h_pget_cstr', 'StringReader_pget_cstr', 'StringReader::pget_cstr', loops=True, kind='loop-contract', timeout=300)
+    S('StringReader.get_cstr', 'h_get_cstr', 'StringReader_get_cstr', 'StringReader::get_cstr', replace=['StringReader_pget_cstr'])
+    S('StringReader.get_line', 'h_get_line', 'StringReader_get_line', 'StringReader::get_line', loops=True, kind='loop-contract', timeout=300)
+    S('BufferWriter.pwrite', 'h_bw_pwrite', 'BufferWriter_pwrite', 'BufferWriter::pwrite', replace=['verif_memcpy'])
+    S('BufferWriter.write', 'h_bw_write', 'BufferWriter_write', 'BufferWriter::write', replace=['verif_memcpy'])
+    S('StringWriter.size', 'h_sw_size', 'StringWriter_size', 'StringWriter::size')
+    S('StringWriter.write', 'h_sw_write', 'StringWriter_write', 'StringWriter::write', replace=['vstr_append'])
+    S('StringWriter.extend_to', 'h_sw_extend_to', 'StringWriter_extend_to', 'StringWriter::extend_to', replace=['vstr_resize_x'])
+    S('StringWriter.extend_by', 'h_sw_extend_by', 'StringWriter_extend_by', 'StringWriter::extend_by', replace=['vstr_resize_x'])
+    if pid == 'C01':
+        S('BitWriter.size', 'h_bitw_size', 'BitWriter_size', 'BitWriter::size')
+        S('BitWriter.write', 'h_bitw_write', 'BitWriter_write', 'BitWriter::write')
+        S('BitReader.pread', 'h_bitr_pread', 'BitReader_pread', 'BitReader::pread', loops=True, kind='loop-contract')
+        S('BitReader.read', 'h_bitr_read', 'BitReader_read', 'BitReader::read', replace=['BitReader_pread'])
+    # ---- typed one-liners: one compilation per type -----------------------------------------------------------------
+    from props import C03 as c03
+    us, _ = c03.spec_unit(ctx, src)
+    us.write()
+    um, ub, ui, aliases = c03.ce_units(ctx, src)
+    amap = {a[0]: a for a in aliases}
+    HT = 'harness/RW/typed.c'
+    import os
+    for Wt in sorted(ones):
+        d = ones[Wt]
+        fns = d['fns']
+        if Wt in ('uint8_t', 'int8_t'):
+            base = ['T=' + Wt, 'NATIVE8=1', 'ExposedT=' + Wt]
+            isf = False
+        elif Wt in amap and amap[Wt][1] in ('big_endian', 'little_endian'):
+            name, cls, ex, st = amap[Wt]
+            st = st or ex
+            isf = ex in ('float', 'double')
+            w = {'uint16_t': 16, 'int16_t': 16, 'uint32_t': 32, 'int32_t': 32, 'float': 32, 'uint64_t': 64, 'int64_t': 64, 'double': 64}[ex]
+            base = ['T=' + Wt, 'NATIVE8=0', 'CE=' + name, 'CLS=' + cls, 'ExposedT=' + ex, 'StoredT=' + st, 'W=%d' % w,
+                    'NAMED=%d' % {'big_endian': 1, 'little_endian': 2}[cls], 'ISFLOAT=%d' % isf]
+            if not isf:
+                pl = c03.PROMOTE[ex]
+                p1 = c03.common(ex, 'int')
+                ti = c03.TINFO
+                base += ['PL=' + pl, 'PL_SIGNED=%d' % ti[pl][1], 'PL_BITS=%d' % ti[pl][4], 'PL_MAX=' + ti[pl][3],
+                         'P1=' + p1, 'P1_SIGNED=%d' % ti[p1][1], 'P1_MIN=' + ti[p1][2], 'P1_MAX=' + ti[p1][3]]
+        else:
+            continue     # native multi-byte (host order) and reverse-endian forms: outside the b-/l-suffixed set of the property
+        base += ['ONE_INC="%s"' % os.path.basename(d['file'])]
+        for k, macro in (('rd_get', 'FN_RD_GET'), ('rd_pget', 'FN_RD_PGET'), ('sw_put', 'FN_SW_PUT'), ('sw_pput', 'FN_SW_PPUT'),
+                         ('bw_put', 'FN_BW_PUT'), ('bw_pput', 'FN_BW_PPUT')):
+            if k in fns:
+                base.append('%s=%s' % (macro, fns[k][0]))
+
+        def TG(key, entry, replace=(), **kw):
+            cname = fns[key][0]
+            cls_, meth = cname.split('_', 1)
+            g = Group(name='%s.%s' % (cls_, meth), harness=HT, entry=entry, function='%s::%s' % (cls_, meth), enforce=cname,
+                      replace=list(replace), defines=list(D) + base,
+                      replay=Replay(driver='RW/typed.cc', mode=key, extra=[meth], sources=ALL_LIB, small_define='VERIF_SMALL'), **kw)
+            if isf:
+                g.engines = ['minisat', 'cadical']      # bit-exact float moves: SAT only (see C03)
+                g.stage1 = 30
+            groups.append(g)
+        if 'rd_get' in fns:
+            TG('rd_get', 'h_rd_get')
+            TG('rd_pget', 'h_rd_pget')
+        TG('sw_put', 'h_sw_put', replace=['vstr_append'])
+        TG('sw_pput', 'h_sw_pput', replace=['vstr_resize_x', 'verif_memcpy'])
+        TG('bw_put', 'h_bw_put', replace=['verif_memcpy'])
+        TG('bw_pput', 'h_bw_pput', replace=['verif_memcpy'])
+        if pid == 'C01' and 'rd_get' in fns:
+            g = Group(name='roundtrip.put_get[%s]' % Wt, harness=HT, entry='l_roundtrip_sw', function='%s / %s' % (fns['sw_put'][0], fns['rd_get'][0]),
+                      replace=[fns['sw_put'][0], fns['rd_get'][0]], defines=['PROP_C01', 'PROP_C02'] + base, kind='lemma', min_post=3)
+            if isf:
+                g.engines = ['minisat', 'cadical']
+                g.stage1 = 30
+            groups.append(g)
     if pid == 'C02':
         for fn in ['sub1', 'sub2', 'subx1', 'subx2', 'sub_bits1', 'sub_bits2', 'subx_bits1', 'subx_bits2']:
             G(fn)
